@@ -273,27 +273,27 @@ def emitted_fields(project, chk, R3="O3", R4="O4"):
     chk.saw_function(fi)
     ex, env, ret = extract_function(project, fi)
     out = final_value(ret)
-    ok = out[0] == "method" and out[1] == "format" and out[2] == ("str", "#{:02x}{:02x}{:02x}") and len(out[3]) == 3
-    order = False
-    if ok:
-        want_tuple = [("index", ("var", "rgb"), ("num", k)) for k in range(3)]
-        got = []
-        for a in out[3]:
-            b = a
-            while b[0] == "ite":     # str-or-tuple input: take the tuple branch
-                b = b[3]
-            got.append(b)
-        order = got == want_tuple
-    chk.check(ok and order, R3, fi.short, show(out)[:80], project.loc(fi.module, fi.node), "'#{:02x}{:02x}{:02x}'.format(r, g, b) in R, G, B order", how="template and operand order",
+    from sa.formula import term as _term, specialise as _spec
+
+    def tuple_input(n):
+        # the tuple-input case: isinstance(rgb, str) is False, isinstance(rgb, tuple) and len(rgb) == 3 are True
+        if n[0] == "call" and n[1] == "isinstance" and n[2][0] == ("var", "rgb") and n[2][1][0] == "op":
+            return ("lit", "tuple" in {x[1] for x in n[2][1][2] if x[0] == "var"})
+        if n == _term("len(rgb) == 3"):
+            return ("lit", True)
+        return n
+    out = final_value(_spec(ret, tuple_input))
+    want = _term("f'#{rgb[0]:02x}{rgb[1]:02x}{rgb[2]:02x}'")
+    chk.check(out == want, R3, fi.short, show(out)[:80], project.loc(fi.module, fi.node), "'#{:02x}{:02x}{:02x}'.format(r, g, b) in R, G, B order", how="template and operand order (tuple input, partially evaluated)",
               message=f"rgb_to_hex does not emit #rrggbb from (r, g, b) in order: {show(out)[:120]}")
     from sa.formula import compare, reference, transform as _tr2
-    from checks.C07 import raise_guards
+    from sa.formula import raise_guards, guards_cover
     HEXG = "def g(r, g_, b):\n    return not all(isinstance(x, int) and 0 <= x <= 255 for x in (r, g_, b))\n"
     ranged = False
     if all(v in env for v in ("r", "g", "b")):
         memo = {id(env["r"]): (env["r"], ("var", "r")), id(env["g"]): (env["g"], ("var", "g_")), id(env["b"]): (env["b"], ("var", "b"))}
         absd = _tr2(ret, lambda n: n, memo)
         refg = reference(HEXG, "g")
-        ranged = any(not compare(gd, refg, Policy()) for gd in raise_guards(absd))
+        ranged = guards_cover(raise_guards(absd), refg)
     chk.check(ranged, R3, fi.short, "validation", project.loc(fi.module, fi.node), "hex digits are produced only for ints in 0..255", how="a raise guard `not all(isinstance(x, int) and 0 <= x <= 255 for x in (r, g, b))` precedes the formatting",
               message="rgb_to_hex does not reject components that are not ints in 0..255 before formatting them as two hex digits each")
